@@ -349,6 +349,9 @@ func runSession(t *tlog, o sessionOpts, rng *rand.Rand) (stats map[string]int, e
 				}
 			}
 			out := "ret"
+			if o.end == "bgstuck" && kind == "bg" {
+				out = "block" // every background invocation of this session stays for ever
+			}
 			if o.misbe {
 				switch x := rnd(40); {
 				case x < 3:
@@ -409,10 +412,15 @@ func runSession(t *tlog, o sessionOpts, rng *rand.Rand) (stats map[string]int, e
 	}
 	stats["lines"] = len(ls) - 1
 	switch o.end {
-	case "", "backlog":
+	case "", "backlog", "bgstuck":
 		s.Srv.SendStream(stream, cuts)
 		if !s.Sync(20 * time.Second) {
-			return stats, fmt.Errorf("the session did not reach its end (no PONG)")
+			if atomic.LoadInt32(&nblocked) == 0 {
+				return stats, fmt.Errorf("the session did not reach its end (no PONG)")
+			}
+			// background handlers are blocked for ever and the foreground no longer gets its events
+			t.add(event{Ev: "stalled"})
+			stats["nodisc"]++
 		}
 	case "eof":
 		s.Srv.SendStream(stream, cuts)
@@ -472,7 +480,7 @@ func runSession(t *tlog, o sessionOpts, rng *rand.Rand) (stats map[string]int, e
 			stats["nodisc"]++
 		}
 	}
-	if o.end == "" || o.end == "backlog" {
+	if o.end == "" || o.end == "backlog" || o.end == "bgstuck" {
 		// the connection stayed up: every line must have reached the foreground handlers
 		gmu.Lock()
 		if maxSeen != len(ls)-1 || gapped {
@@ -519,6 +527,10 @@ func RunPhases(args []string) int {
 		}
 		if i%16 == 5 {
 			o.end, o.misbe, o.tracking = "reconnect", false, true
+		}
+		if i%16 == 13 {
+			// well over a hundred background handler invocations that never return
+			o.end, o.misbe, o.lines = "bgstuck", false, 150+rng.Intn(50)
 		}
 		st, err := runSession(t, o, rng)
 		if err != nil {
